@@ -76,6 +76,13 @@ fn walk_ty<'tcx>(
     flags: &mut BTreeSet<String>,
     depth: usize,
 ) {
+    // resolve associated-type projections such as <Flags as PublicFlags>::Internal
+    let t = if t.has_non_region_param() {
+        t
+    } else {
+        let env = TypingEnv::fully_monomorphized();
+        tcx.try_normalize_erasing_regions(env, rustc_middle::ty::Unnormalized::new_wip(t)).unwrap_or(t)
+    };
     let key = t.to_string();
     if !seen.insert(key) || depth > 40 {
         return;
